@@ -39,6 +39,9 @@ type project struct {
 	Root  string    `json:"root"`
 	Types []typeDef `json:"types,omitempty"`
 	Rules []typeDef `json:"rules,omitempty"` // enum rules: name, text
+	// OptDefault: every schema object is created with AreKeysOptionalByDefault (a property is required only when it
+	// says optional: false)
+	OptDefault bool `json:"opt_default,omitempty"`
 }
 
 // build creates fresh schema objects for a project and registers rules and
@@ -82,6 +85,7 @@ func newRegexVia(name, text string) *regex.RSchema {
 
 func (p project) build() (*jschema.JSchema, error) {
 	s := newJSchemaVia("root", p.Root)
+	s.AreKeysOptionalByDefault = p.OptDefault
 	for _, r := range p.Rules {
 		if err := s.AddRule(r.Name, newEnumVia(r.Name, r.Text)); err != nil {
 			return s, err
@@ -93,6 +97,7 @@ func (p project) build() (*jschema.JSchema, error) {
 			ts = newRegexVia(t.Name, t.Text)
 		} else {
 			tt := newJSchemaVia(t.Name, t.Text)
+			tt.AreKeysOptionalByDefault = p.OptDefault
 			for _, r := range p.Rules {
 				if err := tt.AddRule(r.Name, newEnumVia(r.Name, r.Text)); err != nil {
 					return s, err
